@@ -5,7 +5,7 @@ import vlib
 from vlib import NoVerdict, log
 
 CFG = {
-    "C17": dict(quick=["MCSigner_c17q"], thorough=["MCSigner_c17t"], mode="c17", formula="TC17"),
+    "C17": dict(quick=["MCSigner_c17q", "MCSigner_c17c"], thorough=["MCSigner_c17t", "MCSigner_c17c"], mode="c17", formula="TC17"),
     "C18": dict(quick=["MCSigner_c18a", "MCSigner_c18b"], thorough=["MCSigner_c18t"], mode="c18", formula="TC18"),
 }
 TRACE_CFG = """SPECIFICATION TraceSpec
